@@ -8,6 +8,7 @@ import (
 	"strings"
 
 	"verifharness/checks/c01"
+	"verifharness/checks/c02"
 	"verifharness/checks/c03"
 	"verifharness/checks/c04"
 	"verifharness/checks/c06"
@@ -17,6 +18,7 @@ import (
 	"verifharness/checks/c10"
 	"verifharness/checks/c11"
 	"verifharness/checks/c12"
+	"verifharness/checks/c13"
 	"verifharness/checks/c14"
 	"verifharness/checks/c15"
 	"verifharness/checks/c18"
@@ -31,6 +33,7 @@ type entry struct {
 
 var table = map[string]entry{
 	"C01": {"exploration", c01.Run},
+	"C02": {"exploration", c02.Run},
 	"C03": {"fault_enumeration", c03.Run},
 	"C04": {"fault_enumeration", c04.Run},
 	"C06": {"fault_enumeration", c06.Run},
@@ -40,6 +43,7 @@ var table = map[string]entry{
 	"C10": {"exploration", c10.Run},
 	"C11": {"exploration", c11.Run},
 	"C12": {"exploration", c12.Run},
+	"C13": {"exploration", c13.Run},
 	"C14": {"exploration", c14.Run},
 	"C15": {"exploration", c15.Run},
 	"C18": {"exploration", c18.Run},
